@@ -318,3 +318,53 @@ class HUpdate(Harness):
                     cs.append(len(j_) == 1 and i_ < s2v.shape[0] and O.eq(s2v[i_], Sv[j_[0]] * Sv[j_[0]], 0.0))
                 out.ob("training_noise_is_logged_sd_squared", O.And(*cs))
         return out
+
+
+class HPriors(Harness):
+    """_get_random_samples_from_priors_ (the resampling used by every retry): params: kinds (prior kind per hyper-parameter)"""
+    name = "H-RF/priors"
+    functions = (gptmod._get_random_samples_from_priors_,)
+    stubs_doc = ("gp.get_priors: per hyper-parameter None (gpyreg returns None for an unset prior and for a Gaussian prior with a "
+                 "non-finite mean - probed), a Gaussian prior with symbolic mean/sd, or a prior of another family",
+                 "np.random.normal: fresh symbolic draw")
+
+    def case(self, eng):
+        p = self.p
+        kinds = p["kinds"]
+        names = ["covariance_log_lengthscale", "covariance_log_outputscale", "noise_log_scale", "mean_const"][:len(kinds)]
+        eng.rng = RngStub(eng)
+        rb = Rebinder(eng.concrete, stubs=stubs())
+        f = rb.func(gptmod._get_random_samples_from_priors_)
+        pri, hyp = {}, {}
+        for nm, k in zip(names, kinds):
+            hyp[nm] = np.array([0.25])
+            if k == "none":
+                pri[nm] = None
+            elif k == "gauss":
+                mu, sd = eng.real("mu_" + nm), eng.real("sd_" + nm)
+                if not eng.concrete:
+                    eng.assume(z3.And(mu.e >= -8, mu.e <= 8, sd.e > 0, sd.e <= 4))
+                mk = (lambda v: np.array([v], dtype=float)) if eng.concrete else (lambda v: to_obj(np.array([v], dtype=object)))
+                pri[nm] = ("gaussian", (mk(mu), mk(sd)))
+            else:
+                pri[nm] = ("student_t", (np.array([0.0]), np.array([1.0]), np.array([3.0])))
+
+        class GP:
+            def get_priors(s):
+                return dict(pri)
+
+            def get_hyperparameters(s, as_array=False):
+                return [dict((k, v.copy()) for k, v in hyp.items())]
+
+            def hyperparameters_from_dict(s, d):
+                return np.array([np.concatenate([np.atleast_1d(_raw(d[k])).ravel() for k in names])]) if eng.concrete else \
+                    to_obj(np.array([[np.atleast_1d(_raw(d[k])).ravel()[0] for k in names]], dtype=object))
+        out = Out()
+        r = f(GP())
+        r = np.asarray(_raw(r))
+        out.tag = dict(n=int(r.size))
+        out.ob("resampled_vector_has_one_entry_per_hyperparameter", r.size == len(names))
+        for i, (nm, k) in enumerate(zip(names, kinds)):
+            if k != "gauss":
+                out.ob("hyperparameters_without_gaussian_prior_kept", O.eq(r.ravel()[i], 0.25, 0.0))
+        return out
